@@ -5,7 +5,7 @@ import typed_gen as tg
 import vlib
 from props import c03 as base
 
-GEN = []
+GEN = ["GenSrcDigest"]
 TRUSTED = base.TRUSTED + [
     "that parameters, `::` definitions and case bindings are entered as VarKind::Const in the resolver's variable table "
     "is established by the oracle (planted assignments to them) and by the resolver model's own tie, not by a theorem here",
